@@ -82,6 +82,9 @@ pub struct GenCfg {
     pub sigs: Vec<usize>,
     /// also generate facts whose arity differs from the signature of their name
     pub off_arity: bool,
+    /// with `typed == false`: rules stay typed (the fixpoint rarely fails), only checks, policies
+    /// and queries get untyped expressions
+    pub typed_rules: bool,
 }
 
 impl Default for GenCfg {
@@ -102,6 +105,7 @@ impl Default for GenCfg {
             extern_funcs: false,
             sigs: vec![],
             off_arity: true,
+            typed_rules: false,
         }
     }
 }
@@ -344,6 +348,16 @@ pub fn gen_rule_body(t: &mut Tape, cfg: &GenCfg, min_preds: usize) -> (Vec<Pred>
 }
 
 pub fn gen_rule(t: &mut Tape, cfg: &GenCfg) -> Rule {
+    let typed_cfg;
+    let cfg = if cfg.typed_rules && !cfg.typed {
+        typed_cfg = GenCfg {
+            typed: true,
+            ..cfg.clone()
+        };
+        &typed_cfg
+    } else {
+        cfg
+    };
     let (body, exprs, env) = gen_rule_body(t, cfg, 1);
     let (name, tys) = gen_sig(t, cfg);
     let mut terms = vec![];
